@@ -89,6 +89,9 @@ def targets():
         'dataclass-struct': _dc([FieldM('alpha', Ty('any'), 'val', 0), FieldM('count', Ty('any'), 'val', 0)], allow_extra=True),
         'dataclass-tuple': _dc([FieldM('alpha', Ty('any'), 'val', 0), FieldM('count', Ty('any'), 'val', 0)], in_format=('tuple',)),
         'int-subclass': Ty('sub', base='int'), 'str-subclass': Ty('sub', base='str'),
+        # containers with typed elements: the container's own kind being right does not excuse the elements' kinds (also inside unions)
+        'list-of-int': Ty('list', [Ty('int')]), 'dict-str-int': Ty('dict', [Ty('str'), Ty('int')]), 'tuple-int-str': Ty('tup', [Ty('int'), Ty('str')]),
+        'set-of-str': Ty('set', [Ty('str')], res='set'),
         # single-kind enums: a value of another kind that merely compares equal to a member value (1.0 == 1 == True) is not a member
         'enum-int': Ty('enum', members=(('A', 1), ('B', 5), ('Z', 0))), 'enum-str': Ty('enum', members=(('A', 'ab'), ('B', '12'), ('E', ''))),
         'enum-float': Ty('enum', members=(('A', 2.5), ('B', 5.0))), 'enum-bool': Ty('enum', members=(('T', True), ('F', False))),
@@ -96,8 +99,8 @@ def targets():
     }
 
 
-SEQ_TARGETS = ('list', 'tuple-fixed', 'tuple-var', 'set', 'tuple-literal', 'dataclass-tuple')
-MAP_TARGETS = ('dict', 'struct-literal', 'dataclass-struct')
+SEQ_TARGETS = ('list', 'tuple-fixed', 'tuple-var', 'set', 'tuple-literal', 'dataclass-tuple', 'list-of-int', 'tuple-int-str', 'set-of-str')
+MAP_TARGETS = ('dict', 'struct-literal', 'dataclass-struct', 'dict-str-int')
 
 
 def cell(vk, tk):
